@@ -67,6 +67,8 @@ Section Relabel.
     rsim g (compute shape (AdjGrid per) vals minv cs) (compute shape' (AdjGrid per') vals' minv cs).
   Proof.
     intros Hnd. unfold compute. cbn [adj_of].
+    eapply rsim_perm_l; [apply Permutation_sym, sort_by_perm|].
+    eapply rsim_perm_r; [|apply Permutation_sym, sort_by_perm].
     apply (compute_pixel_map g (indep_of cs) (indep_of cs)
              (fun o o' v HP => builtin_indep_rel g cs o o' v Hseeds HP)
              (inrange shape) (nbrs shape per) (nbrs shape' per')).
